@@ -155,6 +155,30 @@ theorem C19_switch_off_call_unchanged (s : State) (hoff : s.auto = false) (e : N
             exact absurd htouch (Nix.Stamps.Lemmas.not_always C19_no_unguarded_stamp hres hin)
           · rfl
 
+/-- the File object's own members - `close`, `flush`, `validate`, `open`, `__enter__` / `__exit__`, the
+creating functions, `copy_section`, the header helpers - have no path that stamps anything and invoke no
+stamping member of another object: ending a session, flushing or validating writes no time stamp; the
+File's own stamps are written by `File.__init__` on a file that lacks them (`C19_file_init_effect`) and
+by its `force_*_at` methods, nothing else.  (The model's `reopen` = `close` + `File.open` therefore
+keeps every stored stamp: it changes the switch only.) -/
+def fileMembersOk : Bool :=
+  members.all fun mb => mb.cls != .File || ((mb.outcomes.all fun o => o.touch == .none) && mb.foreign.isEmpty)
+
+theorem C19_file_members_never_stamp (mb : Member) (hmb : mb ∈ members) (hc : mb.cls = .File) :
+    (∀ o ∈ mb.outcomes, o.touch = .none) ∧ mb.foreign = [] := by
+  have hall : fileMembersOk = true := by decide +kernel
+  have h := (List.all_eq_true.mp hall) mb hmb
+  simp only [hc, bne_self_eq_false, Bool.false_or, Bool.and_eq_true, List.all_eq_true, beq_iff_eq,
+    List.isEmpty_iff] at h
+  exact h
+
+theorem C19_reopen_keeps_stamps (s : State) (a : Bool) :
+    (step s (.reopen a)).1.ents = s.ents ∧ (step s (.reopen a)).1.clock = s.clock ∧
+    (step s (.reopen a)).1.auto = a := ⟨rfl, rfl, rfl⟩
+
+example : ((resolve .File .m_close).map (·.outcomes)) = some [⟨.returns, .none⟩, ⟨.raises, .none⟩] := by
+  decide +kernel
+
 /-! ## where the machinery is named at all
 
 `stampSites` lists every place of nixio/**/*.py (the test suite excluded) that names `created_at`,
